@@ -24,6 +24,7 @@ from geneticengine.grammar.utils import (
     get_generic_parameters,
     is_abstract,
     is_generic_list,
+    is_generic_tuple,
     is_union,
     is_metahandler,
 )
@@ -95,7 +96,7 @@ def create_tree_using_stacks(g: Grammar, r: ListWrapper, failures_limit=100):
                 add_to_stacks(stacks, float, r.random_float(-100.0, 100.0))
             elif target_type is bool:
                 add_to_stacks(stacks, bool, r.random_bool())
-            elif target_type is tuple:
+            elif is_generic_tuple(target_type):
                 args = []
                 for inner_type in get_generic_parameters(target_type):
                     ret = stacks[inner_type].pop(0)
